@@ -95,7 +95,12 @@ class Workflow:
         for t in self.targets:
             opts = "".join(f", {k}={v!r}" for k, v in t.options.items())
             prot = f", protect={t.protect!r}" if t.protect is not None else ""
-            if t.how == "target":
+            if t.how == "target_late_protect":
+                # the protect set is filled in after the target was created (Workflow.target returns the target for further manipulation)
+                out.append(f"_t = gwf.target({t.name!r}, inputs={t.inputs!r}, outputs={t.outputs!r}{opts}) << {t.spec!r}")
+                out.append(f"_t.flattened_outputs(); _t.protected()")
+                out.append(f"for _p in {list(t.protect or [])!r}: _t.protect.add(_p)")
+            elif t.how == "target":
                 out.append(f"gwf.target({t.name!r}, inputs={t.inputs!r}, outputs={t.outputs!r}{prot}{opts}) << {t.spec!r}")
             elif t.how == "template":
                 wd = f", working_dir={t.working_dir!r}" if t.working_dir is not None else ""
